@@ -20,7 +20,7 @@ PROPS = {
         "assumptions": ["rune iteration of IsValidRID equals the byte loop (tied by the 256-byte class table and exhaustive short strings)"],
     },
     "C17": {
-        "suites": [("pure", "status"), ("pure", "headers"), ("pure", "origins"), ("pure", "cors"), ("gw", "mixed")],
+        "suites": [("pure", "status"), ("pure", "headers"), ("pure", "origins"), ("pure", "cors"), ("gw", "mixed"), ("gw", "http")],
         "theorems_carry": "status tables (regenerated, decided), default 400 for every other code, direct-status range for every integer, protected headers for every header set and every spelling, Set-Cookie accumulation, origin acceptance iff equal ignoring ASCII case for all byte strings, the CORS decision (refused iff an Origin header is present - even empty -, not null and not listed; WebSocket upgrade verdict the same; * refuses nothing)",
         "correspondence_only": "that a direct status of an auth, access or call answer ends the HTTP request without further service requests (lockstep of GET/HEAD/POST/PUT with meta statuses, with and without header authentication, + monitor request-after-direct-status), that service headers are merged into the real response without replacing the protected ones and with Set-Cookie accumulating (monitor on the real response), that refusal precedes any service request (suite cors)",
         "assumptions": ["net/http drops header names that are not tokens", "allow-list entries are lower-cased by Config.prepare (validateAllowOrigin)"],
@@ -106,7 +106,7 @@ PROPS = {
     },
 
     "C16": {
-        "suites": [("pure", "encode"), ("pure", "path"), ("gw", "mixed"), ("gw", "refs")],
+        "suites": [("pure", "encode"), ("pure", "path"), ("gw", "mixed"), ("gw", "refs"), ("gw", "http")],
         "theorems_carry": "refinement: for every graph, path, prefix and both encodings the bytes written by the (modelled) encoders are the print-out of the recursive expansion as a JSON tree (href + model/collection/error in json, bare content in jsonflat, soft references and path re-entries href only, data values unwrapped, failed references as their error), whose printer is well-formed by construction; the expansion terminates with a body on every finite closed graph (cycles of any length, self references, shared children)",
         "correspondence_only": "that the real encoders write what the modelled ones do (differential run on random graphs against the real encoders built on synthetic Subscription trees; independent Go reference renderer as spec monitor; HTTP GET through the real gateway in lockstep incl. status and body); POST result / 204 / Location and HEAD are not modelled (POST paths: pure path suite only)",
         "assumptions": ["leaf values are well-formed JSON (validated by encoding/json on entry)", "references of a loaded subscription always resolve (closed graph)"],
